@@ -86,6 +86,7 @@ let parse_call (v : variant) (toks : string list) : call =
   | ["sftSetup"] -> CSftSetup
   | _ -> failwith "bad call"
 
+let big_budget = nat_of_int 1000000
 let status_string = function FUser -> "user" | FPanic -> "panic" | FVm -> "vm" | FOther -> "other"
 
 let evname_string = function
@@ -119,8 +120,9 @@ let print_bal_diff oc (b0 : n -> n -> n -> n) (b1 : n -> n -> n -> n) =
       if x0 <> x1 then Printf.fprintf oc "b %d %d %d %s\n" a t nn (string_of_n x1)) assets) accounts
 
 let () =
-  let ic = open_in Sys.argv.(1) in
-  let oc = open_out Sys.argv.(2) in
+  let interactive = Sys.argv.(1) = "-" in
+  let ic = if interactive then stdin else open_in Sys.argv.(1) in
+  let oc = if interactive then stdout else open_out Sys.argv.(2) in
   let variant = ref Base in
   let addrs = ref [] in
   let world : world option ref = ref None in
@@ -154,7 +156,8 @@ let () =
           (match deploy !variant e (n_of_string lp) (n_of_string tpt) (n_of_string ptok) (n_of_string price)
                    (n_of_string nrw) (n_of_string conf) (n_of_string ws) (n_of_string claim) x with
            | Ok s -> world := Some (world0 s); Printf.fprintf oc "D ok\n"
-           | Err k -> world := None; Printf.fprintf oc "D %s\n" (status_string k))
+           | Err k -> world := None; Printf.fprintf oc "D %s\n" (status_string k));
+          if interactive then (Printf.fprintf oc ".\n"; flush oc)
       | "S" :: _ :: r -> seeds := List.map hex_to_bytes r
       | "C" :: c :: rd :: ep :: _rnd :: budget :: snap :: npay :: r ->
           let i = !idx in incr idx;
@@ -167,7 +170,7 @@ let () =
                let (pay, r) = take_list (fun t ->
                  let (a, t) = take_n t in let (b, t) = take_n t in let (cc, t) = take_n t in (((a, b), cc), t)) k r in
                let e = { caller = n_of_string c; round = n_of_string rd; epoch = n_of_string ep; pay = pay } in
-               let b = if budget = "-" then nat_of_int 1000000 else nat_of_int (int_of_string budget) in
+               let b = if budget = "-" then big_budget else nat_of_int (int_of_string budget) in
                let call = parse_call !variant r in
                (match exec_sha !variant e b sd w call with
                 | Err k ->
@@ -199,8 +202,14 @@ let () =
                      (snapshot !variant e wcur.st !addrs)
                  | None -> ()
                end
-             with Failure _ | Invalid_argument _ -> Printf.fprintf oc "C %d other # bad line\n" i))
-      | ["E"] -> Printf.fprintf oc "E\n"
+             with Failure _ | Invalid_argument _ -> Printf.fprintf oc "C %d other # bad line\n" i));
+          if interactive then (Printf.fprintf oc ".\n"; flush oc)
+      | ["E"] -> Printf.fprintf oc "E\n"; if interactive then (Printf.fprintf oc ".\n"; flush oc)
+      | ["Q"; "depositSize"] ->
+          (match !world with
+           | Some w -> Printf.fprintf oc "q %s\n" (string_of_n (deposit_size !variant w.st))
+           | None -> Printf.fprintf oc "q 0\n");
+          Printf.fprintf oc ".\n"; flush oc
       | _ -> ()
     done
   with End_of_file -> ());
